@@ -40,7 +40,7 @@ def snake(n):
 
 
 def md_rpc(tag):
-    return tag.split("_generated_Library_")[1].rsplit("_", 1)[0]
+    return tag.split("_generated_")[1].split("_", 1)[1].rsplit("_", 1)[0]
 
 
 def program_diff():
@@ -49,13 +49,14 @@ def program_diff():
     idx = field_index(fdps)
     bad, oks = {}, []
     samples = {n: t for n, t in g.files.items() if n.startswith("samples/generated_samples/") and n.endswith(".py")}
-    rpcs = [m.name for m in fdps[0].service[0].method]
+    rpcs = [m.name for svc in fdps[0].service for m in svc.method]
+    svc_of = {m.name: svc for svc in fdps[0].service for m in svc.method}
     tags = {}
     md_name = [n for n in g.files if n.startswith("samples/generated_samples/snippet_metadata") and n.endswith(".json")]
     metadata = json.loads(g.files[md_name[0]]) if md_name else {"snippets": []}
     md_by_tag = {s["regionTag"]: s for s in metadata.get("snippets", [])}
-    client_src = g.text("services/library/client.py")
-    aclient_src = g.text("services/library/async_client.py")
+    srcs = {svc.name: (g.text(f"services/{svc.name.lower()}/client.py"), g.text(f"services/{svc.name.lower()}/async_client.py"))
+            for svc in fdps[0].service}
     for name, text in samples.items():
         try:
             tree = ast.parse(text)
@@ -101,7 +102,11 @@ def program_diff():
         e_i = [i for i, l in enumerate(lines) if l.startswith("# [END")][0]
         between = "".join(lines[s_i + 1:e_i])
         is_async = tag.endswith("_async")
-        src = aclient_src if is_async else client_src
+        svc_name = tag.split("_generated_")[1].split("_")[0]
+        if svc_name not in srcs:
+            bad[f"tag:{name}"] = f"region tag {tag} names no service of the API"
+            continue
+        src = srcs[svc_name][1] if is_async else srcs[svc_name][0]
         # the whitespace post-processor may drop blank lines inside the docstring (C20 allows that inside string
         # literals): compare the non-blank lines, in order, with their exact indentation
         want = [("            " + l.rstrip()) for l in between.splitlines() if l.strip()]
@@ -117,7 +122,7 @@ def program_diff():
             bad[f"metadata:{tag}"] = "no snippet-metadata entry for this region tag"
         else:
             full = [s for s in md.get("segments", []) if s.get("type") == "FULL"]
-            want_cls = "LibraryAsyncClient" if is_async else "LibraryClient"
+            want_cls = svc_name + ("AsyncClient" if is_async else "Client")
             ok = (md.get("file") == os.path.basename(name) and full and full[0].get("start") == s_i + 2
                   and full[0].get("end") == e_i and md["clientMethod"]["client"]["shortName"] == want_cls
                   and md["clientMethod"]["method"]["shortName"] in rpcs)
@@ -128,9 +133,12 @@ def program_diff():
     for tag, names in tags.items():
         if len(names) != 1:
             bad[f"unique:{tag}"] = f"region tag used by {names}"
+    from google.api import client_pb2
     for rpc in rpcs:
         for kind in ("sync", "async"):
-            want = f"example_v1_generated_Library_{rpc}_{kind}"
+            svc = svc_of[rpc]
+            short = svc.options.Extensions[client_pb2.default_host].split(".")[0]
+            want = f"{short}_v1_generated_{svc.name}_{rpc}_{kind}"
             if want in tags:
                 oks.append(f"sample:{want}")
             else:
